@@ -4,6 +4,16 @@ import json, os
 HERE = os.path.dirname(os.path.abspath(__file__))
 
 CLAIMED = {
+ 'C03': dict(
+  text=("Seeded deterministic simulation of object-creation / garbage-collection histories: kernel.term's view of id() is "
+        "a simulated allocator whose address re-use is PRNG-decided; a heap machine of <=12 live terms runs <=40 ops "
+        "(construct with shared sub-objects at several binder depths, parse, wrap, copy, type/term instantiation, in-place "
+        "type instantiation, substitution for a bound variable, beta, abstraction, drop, gc) and after every op compares "
+        "results with an independent reference term model, all-pairs ==/hash/ordering with alpha-equality, types, and "
+        "denotations in finite standard models. Sampling, not proof."),
+  note="Trusts the reference model checks/c03_model.py (textbook definitions) and CPython's rule that an address is re-issued only after its owner died; terms <=25 nodes.",
+  technique="deterministic simulation: simulated allocator (address re-use faults) + heap-machine op schedules + reference-model and finite-model oracles",
+  ref="DESIGN.md §4 C03"),
  'C17': dict(
   text=("Seeded deterministic simulation of delivery histories (order, duplication, reversed orientation, "
         "already-entailed merges, interleaved add/test/explain) against prover/congc.py, real code, with a naive "
@@ -29,7 +39,7 @@ NA = {
  'C19': "numeric value before/after a rule application; input-only; the timer/thread code in integral/slagle.py is not part of the property",
  'C20': "functions of program, annotations and state; input-only",
 }
-PENDING = {k: 'not yet claimed: check under construction in this build (DESIGN.md §4)' for k in ('C03','C07','C12','C13','C14','C15')}
+PENDING = {k: 'not yet claimed: check under construction in this build (DESIGN.md §4)' for k in ('C07','C12','C13','C14','C15')}
 
 def main():
     checks = []
